@@ -32,6 +32,8 @@ LAYOUT = {
     "inverse": ([("t", "X", "Y"), ("v", "X"), ("v", "Y")], [("t", "Y", "X")]),
     "abduce_with": ([("v", "Y"), ("s",), ("t", "X", "Y"), ("v", "X"), ("v", "Y")], [("v", "X"), ("s",), ("v", "X")]),
     "prod2": ([("v", "X"), ("s",), ("v", "X"), ("v", "Z"), ("s",), ("v", "Z")], [("v", "X*Z"), ("s",), ("v", "X*Z")]),
+    "prod3": ([("v", "X"), ("s",), ("v", "X"), ("v", "Y"), ("s",), ("v", "Y"), ("v", "Z"), ("s",), ("v", "Z")],
+              [("v", "X*Y*Z"), ("s",), ("v", "X*Y*Z")]),
     "merge": ([("t", "X", "Y"), ("t", "Z", "Y"), ("v", "X"), ("v", "Z"), ("v", "Y")], [("t", "X*Z", "Y")]),
 }
 
@@ -142,8 +144,18 @@ def build(rng, ty, op, sizes, den, r=0):
     if op == "abduce_with":
         return flat_sx(G.grid_simplex(rng, ny, den)) + f(table(rng, ty, nx, ny, "grid")) + \
             G.grid_dist(rng, nx, den, True) + G.grid_dist(rng, ny, den, True)
-    if op == "prod2":
-        return flat_op(G.grid_opinion(rng, nx, den)) + flat_op(G.grid_opinion(rng, nz, den))
+    if op in ("prod2", "prod3"):
+        ws = [G.grid_opinion(rng, n, den) for n in ([nx, nz] if op == "prod2" else [nx, ny, nz])]
+        if r % 2 == 1:
+            # a value with base rate exactly 0 in every factor, anywhere in the value order (placed deterministically):
+            # its joint cells put no bound on the uncertainty, wherever a renaming moves them
+            ws2 = []
+            for b, u, a in ws:
+                k = rng.below(len(a))
+                rest = G.grid_dist(rng, len(a) - 1, den, True)
+                ws2.append((b, u, rest[:k] + [0.0] + rest[k:]))
+            ws = ws2
+        return sum((flat_op(w) for w in ws), [])
     if op == "merge":
         return f(table(rng, ty, nx, ny, "grid")) + f(table(rng, ty, nz, ny, "grid")) + \
             G.grid_dist(rng, nx, 8, True) + G.grid_dist(rng, nz, 8, True) + G.grid_dist(rng, ny, 8, True)
@@ -184,6 +196,9 @@ def mkcase(rng, ty, op, sizes, nums, opk, perms, gid, side):
     if op == "prod2":
         fam, lab = rng.choice([("arr", 0), ("marrd", 1)])
         return Case(op, ty, fam, "ref", [nx, nz], nums, mdims=[nx, nz, lab], tag=op, meta=meta)
+    if op == "prod3":
+        fam, lab = rng.choice([("arr", 0), ("marrd", 1), ("marrd", 1)])
+        return Case(op, ty, fam, rng.choice(["own", "ref"]), [nx, ny, nz], nums, mdims=[nx, ny, nz, lab], tag=op, meta=meta)
     fam, lab = rng.choice([("arr", 0), ("marrd", 1)])
     return Case("merge", ty, fam, "own", [nx, nz, ny], nums, mdims=[nx, nz, ny, lab], tag=op, meta=meta)
 
@@ -205,6 +220,7 @@ def gen(rng, tier):
         "inverse": [{"X": 3, "Y": 2}, {"X": 2, "Y": 3}, {"X": 4, "Y": 3}],
         "abduce_with": [{"X": 3, "Y": 2}, {"X": 2, "Y": 3}],
         "prod2": [{"X": 2, "Z": 3}, {"X": 3, "Z": 2}, {"X": 3, "Z": 4}],
+        "prod3": [{"X": 3, "Y": 2, "Z": 2}, {"X": 2, "Y": 3, "Z": 2}, {"X": 3, "Y": 2, "Z": 3}],
         "merge": [{"X": 2, "Z": 3, "Y": 2}, {"X": 3, "Z": 2, "Y": 3}],
     }
     for ty in ("f64", "f32"):
@@ -233,7 +249,7 @@ def gen(rng, tier):
 
 
 def scale(c, rm):
-    return 1 << 10 if c.meta["lop"] in ("merge", "inverse", "abduce_with", "umax", "umax2", "umax3", "deduce", "prod2") else 1
+    return 1 << 10 if c.meta["lop"] in ("merge", "inverse", "abduce_with", "umax", "umax2", "umax3", "deduce", "prod2", "prod3") else 1
 
 
 def cross(cases, impl, model):
